@@ -41,11 +41,16 @@ def build(sp, parent=None, index=None):
 
 
 def nodes(n):
-    """pre-order"""
+    """pre-order; every node object once (a broken library may hand back a child list that contains an ancestor or the
+    same node twice: the walk must still end - the oracles then see the discrepancy in the lists themselves)"""
     out = []
+    seen = set()
     st_ = [n]
     while st_:
         x = st_.pop()
+        if id(x) in seen:
+            continue
+        seen.add(id(x))
         out.append(x)
         st_.extend(reversed(x.children))
     return out
